@@ -4,7 +4,9 @@ Proof: lean/IstioModel/C06/Theorems.lean over the exact model lean/IstioModel/C0
 pilot/pkg/model/typed_xds_cache.go (lruCache on simplelru) and xds_cache.go (XdsCacheImpl).
 Tie: T-diff stream `cache` - random op sequences on the REAL cache through model.XdsCache, observed
 through the verif hook pilot/pkg/model/zz_verif_c06.go, compared line by line with the Lean model;
-stream `keys` - key completeness of the real key functions, validated (not proved).
+stream `keys` - key completeness of the real key functions, validated (not proved);
+stream `writers` - coherence of the real cache writers (processRequest, pushConnection, debug config dump) on
+sequential schedules, validated (not proved).
 On break: harness `oracle` evaluates the property itself on the real cache (ground truth versioned by the
 harness) and enumerates all interleavings of 2 writers x 1 invalidator (x flusher).
 """
@@ -83,7 +85,8 @@ def run(ctx):
     ctx.rule = ("cache: cases = random op sequences (5-300 ops: add/get/clear/clearall/flush/maxsize + malformed) on one XdsCacheImpl, "
                 "LRU size 1-5 (sometimes unbounded), 2-7 keys, 4 typed caches + unknown types, Start tokens equal/newer/older than the "
                 "last Clear, zero Start and nil request, dependencies over 9 configs incl. PeerAuthentication; "
-                "keys: one case = one (key function, attribute) pair; distinct = hash of (ops, implementation outputs); "
+                "keys: one case = one mesh variant x base proxy x 21 single-attribute proxy pairs; writers: one case = 6-30 "
+                "request/push/dump/change/check ops on 1-3 connections of a FakeDiscoveryServer; distinct = hash of (ops, implementation outputs); "
                 "non-trivial = at least one op")
     ctx.assumptions = [
         "writers are coherent (theorem never_stale): a writer's Start token is older than every already executed invalidation of a "
@@ -96,6 +99,7 @@ def run(ctx):
         "stream `keys`, not proved",
     ]
     ctx.trusted.append("pilot/pkg/model/zz_verif_c06.go (verif-tagged read-only snapshot of the typed caches + synchronous Flush)")
+    ctx.trusted.append("pilot/pkg/xds/zz_verif_c06.go (verif-tagged entry points: processRequest, pushConnection, connectionConfigDump, bare Connection)")
     ctx.trusted.append("logical-to-wall-clock mapping of the harness (harness/c06/clock.go): only the order of tokens is observable by the cache")
     proved = ctx.lean_prove(THEOREMS)
     if not ctx.build_drv():
@@ -130,6 +134,8 @@ def run(ctx):
                 else:
                     ctx.count("keys.pairs.%s" % f[0], int(f[1]))
                     ctx.count("keys.pairs_where_generation_differs.%s" % f[0], int(f[2]))
+    # stream writers: the coherent-writer hypothesis validated on the real request / push / debug-dump code paths
+    ctx.diff_stream("writers", ctx.n(60, 1000), oracle=oracle)
     # ... and the exhaustive interleaving enumeration on the real cache
     il = os.path.join(ctx.work, "interleave.gen.ops")
     rc, log = ctx.harness("gen", "interleave", ctx.seed, ctx.n(8, 40), il)
